@@ -243,7 +243,28 @@ def case_st(draw, tier):
         src = draw(st.sampled_from(multi))
         twin = dict(draw(st.sampled_from(expected_run(src["rec"]))))
         acl["items"].insert(draw(st.integers(0, len(acl["items"]))), {"t": "ace", "rec": twin})
+    if multi and draw(st.sampled_from([True, False, False])):
+        # a second multi-port entry that differs from the first in its options only (log / flag keywords), nearby
+        src = draw(st.sampled_from(multi))
+        other = dict(src["rec"], seq=0)
+        if other["proto"] == 6 and draw(st.booleans()):
+            other["flags"] = [] if other.get("flags") else [draw(st.sampled_from(["syn", "ack", "established"]))]
+        else:
+            other["logs"] = [] if other.get("logs") else ["log"]
+        other.pop("lf", None)
+        pos = acl["items"].index(src) + draw(st.sampled_from([0, 1]))
+        acl["items"].insert(pos, {"t": "ace", "rec": other})
+    if multi and draw(st.sampled_from(range(6))) == 3:
+        # an ACL read with a raised limit: a multi-port entry whose wildcard has 17 non-contiguous bits
+        src = draw(st.sampled_from(multi))
+        side = draw(st.sampled_from(["src", "dst"]))
+        if src["rec"][side]["k"] != "group":
+            w = ((1 << 17) - 1) << draw(st.integers(1, 6))
+            src["rec"][side] = {"k": "wild", "b": 0x0A000001 & ~w & R.ALL1, "w": w}
+            acl["max_ncwb"] = draw(st.sampled_from([17, 20, 30]))
     level = draw(st.sampled_from(["ace", "acegroup", "acl", "acl", "platform", "platform"]))
+    if acl.get("max_ncwb"):
+        level = draw(st.sampled_from(["acl", "acl", "platform"]))
     if level == "ace" and not any(it["t"] == "ace" for it in acl["items"]):
         level = "acl"
     if level in ("ace", "acegroup"):
